@@ -2,6 +2,7 @@ package engb
 
 import (
 	"fmt"
+	"go/types"
 
 	"golang.org/x/tools/go/ssa"
 )
@@ -141,6 +142,42 @@ func (a *Analyzer) QualifiedResolution() []RuleResult {
 			}
 			out = append(out, RuleResult{"B-QUALIFIED", fn, fmt.Sprintf("success return #%d of the file branch returns the location with symlinks resolved", n), a.P.InstrPos(rt), ok2, why})
 		}
+	}
+	// the candidates: the slice the probe loop indexes is, unconditionally, append([]string{""}, resolveExtensions...) — the name as
+	// written first, then EVERY configured extension, whatever the name looks like (a dotted stem such as address.v2 has no extension)
+	{
+		cands := map[ssa.Value]bool{}
+		for _, b := range f.Blocks {
+			for _, in := range b.Instrs {
+				if ia, ok := in.(*ssa.IndexAddr); ok {
+					if st, isSlice := ia.X.Type().Underlying().(*types.Slice); isSlice {
+						if bt, isB := st.Elem().Underlying().(*types.Basic); isB && bt.Kind() == types.String {
+							if _, isParam := ia.X.(*ssa.Parameter); !isParam {
+								cands[ia.X] = true
+							}
+						}
+					}
+				}
+			}
+		}
+		okc, why := len(cands) == 1, fmt.Sprintf("%d indexed []string values", len(cands))
+		for v := range cands {
+			call, isCall := v.(*ssa.Call)
+			bi, isB := (ssa.Value)(nil), false
+			if isCall {
+				_, isB = call.Call.Value.(*ssa.Builtin)
+				bi = call.Call.Value
+			}
+			switch {
+			case !isCall || !isB || bi.Name() != "append" || len(call.Call.Args) != 2:
+				okc, why = false, "the probed list is "+v.String()+" ("+fmt.Sprintf("%T", v)+"), not one unconditional append([]string{\"\"}, resolveExtensions...): on some path configured extensions are not tried"
+			case len(f.Params) < 3 || call.Call.Args[1] != ssa.Value(f.Params[2]):
+				okc, why = false, "the appended list is not the resolveExtensions parameter"
+			default:
+				why = "append([]string{\"\"}, resolveExtensions...) indexed by the probe loop"
+			}
+		}
+		out = append(out, RuleResult{"B-QUALIFIED", fn, "every configured extension is probed after the name as written", "", okc, why})
 	}
 	out = append(out, RuleResult{"B-QUALIFIED", fn, "success returns after EvalSymlinks", "", n >= 1, fmt.Sprintf("%d", n)})
 	return out
